@@ -2,6 +2,7 @@
    Theorems only; see DESIGN.md section 6 (C12).  Model: Sys/Pipeline.v. *)
 From Coq Require Import List Arith NArith.
 From Sdfx Require Import Sys.Pipeline.
+From Sdfx Require Import Generated.BufferConsts.
 Import ListNotations.
 
 (* Repaired protocol (the writer keeps draining the channel after a write error):
@@ -58,10 +59,11 @@ Proof. exact pinned_leak. Qed.
 Print Assumptions C12_leak_refuted.
 
 (* non-vacuity / witnesses: ToSTL to /dev/full with 3 full buffers - the 81st
-   triangle's write fails (first 4096-byte flush), two batches are still to come. *)
+   triangle's write fails (first 4096-byte flush), two batches are still to come
+   (three Writes of tBufferSize triangles, the threshold read from the source). *)
 Example C12_hang_witness :
-  fst (predicted Pinned (batches_of 256 [(256, 3)]) (Some 80) true) = false /\
-  fst (predicted Repaired (batches_of 256 [(256, 3)]) (Some 80) true) = true.
+  fst (predicted Pinned (batches_of tBufferSize [(tBufferSize, 3)]) (Some 80) true) = false /\
+  fst (predicted Repaired (batches_of tBufferSize [(tBufferSize, 3)]) (Some 80) true) = true.
 Proof. split; vm_compute; reflexivity. Qed.
 
 Example C12_leak_witness : spawned Pinned 16 (repeat true 5) = 80 /\ spawned Repaired 16 (repeat true 5) = 16.
